@@ -53,7 +53,9 @@ var c10Benign = []interface{}{
 // c10Check applies the totality oracle to one byte string.
 func c10Check(c *mon.Ctx, s string, origin string, budget uint64) {
 	c.Evals(1)
-	d := func() map[string]any { return map[string]any{"input": fmt.Sprintf("%q", clip(s, 300)), "origin": origin} }
+	d := func() map[string]any {
+		return map[string]any{"input": fmt.Sprintf("%q", clip(s, 300)), "origin": origin}
+	}
 	var opts []grammar.Option
 	var bopts []bexpr.Option
 	if budget > 0 {
